@@ -408,6 +408,11 @@ func registerFiles(e *Engine) {
 	})
 	write := func(c *CallCtx, st *State, args []Value) []Outcome {
 		en := c.E
+		if cell, ok := en.named["file:real"]; ok {
+			if v, ok := st.heap[cell]; ok && v.(*smt.Term).IsTrue() {
+				return en.execFuncFV(st, c.Fn, args, nil)
+			}
+		}
 		p := en.pathArg(args[1], "WriteIntToFile")
 		f := en.fileGet(st, p)
 		f = with(f, fWrites, smt.Add(f.F[fWrites].(*smt.Term), smt.IntC(1)))
